@@ -15,7 +15,7 @@ RULE = ("replay: one generated all-module history (5 pools, 14 providers incl. a
         "whitelist and the clp policies, each followed by a restart point of the restarted mode; directed history poolless-prefix (no pool in the first blocks, so "
         "transactions and not block hooks are the first readers; rejected [redecimal ceth, refused swap]; then the first pools; restart before every block); "
         "ACCEPTED administrator edits of objects that block hooks read — a pooled denom re-registered with other decimals, swap-fee / rewards / "
-        "liquidity-protection policies, whitelist member removed and re-added — each followed by a restart point; conflicting bridge claims with tied power, lock/burn, dispensation create/run/claim, margin open/close/"
+        "liquidity-protection policies, whitelist member removed and re-added — each followed by a restart point; directed history margin-stress-queue (five margin pools kept under the removal-queue threshold for 56 blocks with small, moving interest rates: the float term of GetSQFromBlocks is evaluated about 270 times); worker processes also differ in CPU features (GODEBUG=cpu.fma=off, cpu.all=off; effect recorded as cpu_probe in stats.json); executions are compared line by line within a CPU-behaviour group and by one cpu-features.<history> line across groups; conflicting bridge claims with tied power, lock/burn, dispensation create/run/claim, margin open/close/"
         "force-close + hook liquidations, registry/admin/bank messages; in every block 1-2 transactions that FAIL INSIDE a handler after "
         "gas-charged work, for every module: dispensation create with an empty-coins output among many recipients / without funds, "
         "run by a wrong runner, clp swap below minimum, remove/unlock more units than held, unpayable add/bucket, refused pool, "
@@ -61,6 +61,8 @@ ASSUMPTIONS = [
     "events, logs and query answers are not consensus state (Tendermint 0.34 hashes Code, Data, GasWanted, GasUsed of DeliverTx only)",
 ]
 UNPROVED = [
+    "F29 (known finding): the two float sites that call math.Pow with a fractional exponent (margin GetSQFromBlocks, clp PolicyStart) are NOT independent of the CPU "
+    "(FMA3 / architecture); the design's bit-determinism argument for them is wrong.  On a host without FMA3 the cpu.fma=off variation is vacuous (see cpu_probe in the evidence)",
     "F25 (known finding, cosmos-sdk): GasUsed of a stateless-invalid transaction in the first block after a node restart is NOT run-independent; "
     "everything else about that block (app hash, other results) is, as far as the re-executions show",
     "bit-identical app hash across runs/processes on the REAL code: only tested by N-fold re-execution (Go map order, IAVL, encoders are outside the model)",
@@ -79,7 +81,10 @@ MANIFEST = {
              "goroutine use; `decide` obligations require each to be a reviewed, covered site.  Tie 2 (a TEST, not a proof): the real application is "
              "driven through InitChain/BeginBlock/DeliverTx/EndBlock/Commit with signed transactions on generated all-module histories, N = 8/64 times "
              "in fresh instances and separate processes; app hashes and DeliverTx {Code,Data,GasWanted,GasUsed} are judged equal by a Lean predicate."),
-    "note": ("KNOWN FINDING F25 (tag txresult.restarted.validatebasic.gasused, directed history restart-validatebasic, hit on every run): a node restarted just "
+    "note": ("KNOWN FINDING F29 (tags cpu-features.margin-stress-queue / cpu-features.main): nodes with and without FMA3 commit different app hashes because math.Pow(x, fractional y) "
+             "calls the assembly math.Exp; reproduced by worker processes started with GODEBUG=cpu.fma=off.  A change that swaps one such routine for another (math.Exp for math.Pow) "
+             "shows the same symptom under the same tag; it is told apart only by the float-site fact obligation.  "
+             "KNOWN FINDING F25 (tag txresult.restarted.validatebasic.gasused, directed history restart-validatebasic, hit on every run): a node restarted just "
              "before a block reports another GasUsed (GasWanted 0) for the transactions of that block that fail the stateless ValidateBasic — baseapp.runTx reads the "
              "block's shared infinite gas meter before the ante handler installs the tx meter, and x/capability's InitMemStore charges 15127 more gas on that meter in "
              "the first BeginBlock after a start; code, data, GasWanted and the app hash agree; cause in cosmos-sdk v0.45.16, not repairable in sifnode.  For such a "
